@@ -18,6 +18,7 @@ import (
 
 	"helm.sh/helm/v4/pkg/action"
 	chart "helm.sh/helm/v4/pkg/chart/v2"
+	chartutil "helm.sh/helm/v4/pkg/chart/v2/util"
 
 	"verif/internal/evid"
 	"verif/internal/vt"
@@ -42,6 +43,8 @@ var c05Snippets = []string{
 	"  fromyaml: {{ (fromYaml (toYaml .Values.m)).a | quote }}",
 	"  tern: {{ ternary \"y\" \"n\" (hasKey .Values.m \"a\") }}",
 	"  caps: {{ .Capabilities.KubeVersion.Major }}",
+	"  apis: {{ .Capabilities.APIVersions.Has \"alpha.example/v1\" }}/{{ .Capabilities.APIVersions.Has \"beta.example/v1\" }}/{{ .Capabilities.APIVersions.Has \"apps/v1\" }}",
+	"  kube: {{ .Capabilities.KubeVersion.Version }}",
 	// shared state across template files: deterministic only because files execute in a fixed order
 	"  seen: {{ .Values.m.z | default \"none\" | quote }}",
 	"{{- $_ := set .Values.m \"z\" \"%s\" }}\n  set: done",
@@ -62,6 +65,20 @@ type c05Chart struct {
 type c05ACase struct {
 	Root     *c05Chart `json:"root"`
 	SubNotes bool      `json:"subNotes"`
+	// release options that reach .Capabilities (helm template --api-versions / --kube-version)
+	APIVersions []string `json:"apiVersions,omitempty"`
+	KubeVersion string   `json:"kubeVersion,omitempty"`
+}
+
+// c05Other is the same chart rendered under different release options: what it renders must not matter to c.
+func c05Other(c c05ACase) c05ACase {
+	o := c
+	o.APIVersions = []string{"beta.example/v1"}
+	if len(c.APIVersions) > 0 && c.APIVersions[0] == "beta.example/v1" {
+		o.APIVersions = []string{"alpha.example/v1", "gamma.example/v2"}
+	}
+	o.KubeVersion = "v1.19.3"
+	return o
 }
 
 func c05GenChart(t *rapid.T, name string, depth int, notes bool) *c05Chart {
@@ -139,6 +156,14 @@ type c05Out struct {
 func c05Render(c c05ACase, perm func(n int) []int) c05Out {
 	in := action.NewInstall(&action.Configuration{})
 	in.ClientOnly, in.DryRun, in.ReleaseName, in.Namespace, in.SubNotes = true, true, "r", "default", c.SubNotes
+	in.APIVersions = chartutil.VersionSet(append([]string(nil), c.APIVersions...))
+	if c.KubeVersion != "" {
+		kv, err := chartutil.ParseKubeVersion(c.KubeVersion)
+		if err != nil {
+			return c05Out{Err: "harness: " + err.Error()}
+		}
+		in.KubeVersion = kv
+	}
 	rel, err := in.Run(c.Root.build(perm), map[string]interface{}{})
 	if err != nil {
 		return c05Out{Err: err.Error()}
@@ -198,15 +223,26 @@ func c05JudgeA(tb vt.TB, c c05ACase, permSeeds [][]int) {
 			return
 		}
 	}
-	// (3) concurrency: private copies rendered at the same time
+	// (3) a render of the same chart under OTHER release options in between changes nothing
+	other := c05Other(c)
+	c05Render(other, nil)
+	if o := c05Render(c, nil); c05Diff(base, o) != "" {
+		fail("C05:A/render-depends-on-an-earlier-render-with-other-options/"+c05Diff(base, o)+ctx, c05Diff(base, o), o)
+		return
+	}
+	// (4) concurrency: private copies rendered at the same time, next to renders under other release options
 	outs := make([]c05Out, 8)
 	var wg sync.WaitGroup
 	for i := range outs {
-		wg.Add(1)
+		wg.Add(2)
 		go func(i int) {
 			defer wg.Done()
 			outs[i] = c05Render(c, nil)
 		}(i)
+		go func() {
+			defer wg.Done()
+			c05Render(other, nil)
+		}()
 	}
 	wg.Wait()
 	for _, o := range outs {
@@ -231,6 +267,8 @@ func c05Field(o c05Out, what string) string {
 
 func c05AProp(t *rapid.T) {
 	c := c05ACase{Root: c05GenChart(t, "root", 2, true), SubNotes: rapid.Bool().Draw(t, "subNotes")}
+	c.APIVersions = rapid.SampledFrom([][]string{nil, {"alpha.example/v1"}, {"beta.example/v1"}, {"alpha.example/v1", "beta.example/v1"}}).Draw(t, "apiVersions")
+	c.KubeVersion = rapid.SampledFrom([]string{"", "", "v1.28.0", "v1.31.2"}).Draw(t, "kubeVersion")
 	seeds := [][]int{rapid.SliceOfN(rapid.IntRange(0, 1000), 6, 6).Draw(t, "perm1"), rapid.SliceOfN(rapid.IntRange(0, 1000), 6, 6).Draw(t, "perm2")}
 	c05JudgeA(t, c05ACaseWith(c), seeds)
 	files, notes, ranged, subs := 0, 0, false, 0
@@ -254,6 +292,9 @@ func c05AProp(t *rapid.T) {
 	}
 	walk(c.Root)
 	lbls := []string{fmt.Sprintf("subcharts:%d", min(subs, 4))}
+	if len(c.APIVersions) > 0 {
+		lbls = append(lbls, "extra-api-versions")
+	}
 	if c.SubNotes && notes >= 2 {
 		lbls = append(lbls, "sub-notes-with-several-notes-files")
 	}
@@ -261,6 +302,12 @@ func c05AProp(t *rapid.T) {
 }
 
 func c05ACaseWith(c c05ACase) c05ACase { return c }
+
+// TestC05ARace is TestC05A in a binary built with the race detector: renders under different release options running
+// at the same time must not touch shared state (a report is a violation: the outcome of one render would depend on another).
+func TestC05ARace(t *testing.T) {
+	rapid.Check(t, c05AProp)
+}
 
 func TestC05A(t *testing.T) {
 	evid.Extra("rule", "C05A: charts with 1-4 template files per chart (1-3 documents each, hooks with weights, unknown kinds), partials, 0-3 subcharts on two levels each with or without NOTES.txt, SubNotes on/off, built from a grammar of snippets limited to functions documented as deterministic (ranged maps, toYaml/toJson/fromYaml, Files.Get/Glob/Lines/AsConfig, include, tpl, merge, pick, sha256sum, set on shared values read by other files, fail). Oracles: 6 renders of freshly built copies are identical (manifest, hooks with order, notes, or the error text); 2 renders with templates, files, dependencies and the values map loaded in permuted order equal the first; 8 concurrent renders of private copies equal the first. Non-trivial = at least two template files and a ranged map, several NOTES files or a subchart; distinct by the chart.")
